@@ -796,12 +796,13 @@ lh_expect(VGROUP *vg)
    cbmc's symbolic execution otherwise carries them as "value on the success path / value on the refused path" and can no
    longer resolve the handle in the following Vdetach to one object (see the note at lh_env). */
 #define LH_ATTACHED(id, IDK, livek, objk, inst, what)                                                             \
-    if (!((id) == IDK && livek == 1 && objk == (void *)(inst))) {                                                 \
+    if (!((id) == IDK && livek == 1 && objk == (void *)(inst) && g_reg_n == (IDK - L_ID0) + 1)) {                 \
         H4V_CHECK(0, what);                                                                                       \
         return;                                                                                                   \
     }                                                                                                             \
-    livek = 1;                                                                                                    \
-    objk  = (void *)(inst)
+    livek   = 1;                                                                                                  \
+    objk    = (void *)(inst);                                                                                     \
+    g_reg_n = (IDK - L_ID0) + 1
 /* the two detaches in either order (handles are the constants L_ID0, L_ID1) */
 #define LH_DETACH_BOTH(order, d1, d2)                                                                             \
     if (order) {                                                                                                  \
